@@ -2,10 +2,69 @@
 //! hyper-parameters and seed and returns the bit patterns of every learned quantity that the public
 //! API exposes, plus predictions / transforms. Everything here is deterministic on the harness
 //! side (data come from a fixed LCG, not from an entropy source).
+//!
+//! ACCESSOR COVERAGE (audited against the `pub fn`s of the fitted-model types in /repo; a public
+//! accessor that is not part of a fingerprint is a blind spot - `DecisionTree::features()` was one).
+//! Conventions: the ORDER of a returned Vec / slice / iterator is compared as returned unless the
+//! rustdoc (or the property statement) says it is unordered; those cases are sorted HERE and marked
+//! "(as set)" / "(as map)". `bj` = key-sorted serde form, `bd` = Debug form (only for types without
+//! hash collections), both for learned fields that have no accessor.
+//!   KMeans            centroids, cluster_count, inertia, predict (matrix + single row), transform
+//!   GaussianMixture   weights, means, centroids (alias), covariances, precisions, predict_proba,
+//!                     predict; bd: precisions_chol, covar_type
+//!   Dbscan            transform(array) for the 3 index types, transform(dataset) targets + records
+//!   OpticsAnalysis    iter, as_slice, Index; Sample::{index, core_distance, reachability_distance}; bd
+//!   Hierarchical      targets of the returned dataset, kernel size
+//!   LinearRegression  params, intercept, predict
+//!   Isotonic          predict (training, between, outside); bd: regressor / response (no accessors)
+//!   Tweedie           coef, intercept (pub fields), predict; bd: link
+//!   ElasticNet        hyperplane, intercept, duality_gap, n_steps, z_score, confidence_95th, predict
+//!   MultiTaskEN       hyperplane, intercept, duality_gap, n_steps, predict, z_score / confidence_95th
+//!                     (both panic on the unchanged tree - see multitask_elasticnet; panic text compared)
+//!   PlsRegression / PlsCanonical / PlsCca   coefficients, weights, loadings, rotations (both halves),
+//!                     predict, transform, inverse_transform; bd: scores, means, stds
+//!   PlsSvd            weights (both), transform; bd: means, stds
+//!   Logistic (binary) params, intercept, labels (pos / neg class + numeric label), set_threshold,
+//!                     predict_probabilities, predict
+//!   Logistic (multi)  params, intercept, classes (ordered: maps columns to labels),
+//!                     predict_probabilities, predict
+//!   Svm               alpha, rho (pub fields), nsupport, weighted_sum, predict (matrix + single row),
+//!                     Display (exit reason, iterations, obj); bd: r, hyperplane / support vectors,
+//!                     probability coefficients
+//!   DecisionTree      iter_nodes (documented level order), root_node, features (documented BFT order),
+//!                     feature_importance, mean_ / relative_impurity_decrease, max_depth, num_leaves,
+//!                     export_to_tikz (default, with_legend, complete(false)), predict;
+//!                     TreeNode::{depth, is_leaf, split, prediction, feature_name, children}; bj: every
+//!                     stored field incl. the modal class of internal nodes
+//!   GaussianNb / MultinomialNb   predict; bj: class_info (a HashMap: compared as map) - no accessors
+//!   Ftrl              z, n, get_weights, alpha, beta, l1_ratio, l2_ratio, predict
+//!   Pca               components, singular_values, mean, explained_variance(_ratio), predict,
+//!                     inverse_transform, transform(dataset)
+//!   RandomProjection  transform (3 calling forms) incl. of the identity = the matrix itself (no accessor)
+//!   DiffusionMap      embedding, eigvals, estimate_clusters
+//!   FastIca           predict; bd: mean, components (no accessors)
+//!   LinearScaler      offsets, scales, method, transform (array, dataset + feature_names order)
+//!   NormScaler        transform (array, dataset)
+//!   FittedWhitener    transformation_matrix, mean, transform (array, dataset)
+//!   CountVectorizer / FittedTfIdfVectorizer   nentries, vocabulary + transform (as word -> column map,
+//!                     the statement says so), method, fit / fit_vocabulary / stop words / max_features
+//!   Platt             predict; bd: A, B and the wrapped model (no accessors)
+//!   MultiClassModel   predict (it has no accessors)
+//!   ConfusionMatrix   precision, recall, accuracy, f1_score, f_score, mcc, split_one_vs_all,
+//!                     split_one_vs_one, Debug (members in their documented sorted order + counts)
+//!   dataset helpers   one_vs_all (as map label -> view, incl. each view's label_count), labels,
+//!                     combined_labels, label_set (as sets), label_count, label_frequencies (as maps),
+//!                     silhouette_score
+//!   Kernel            sum, diagonal, dot, size, to_upper_triangle, column
+//! Deliberately NOT observed: parameter builders' getters (they echo the caller's input, nothing is
+//! learned); `fit_files` / `transform_files` of the vectorisers (file I/O in front of the same code);
+//! `force_tokenizer_*_redefinition` (mutators); `Kernel::{view, to_owned, is_linear}` (no learned
+//! content); `AppxDbscan` (a type alias of `Dbscan` in this tree; the hash-table based module
+//! `appx_dbscan/` is not compiled); the excluded facilities of the statement (k-means||, t-SNE, unseeded FastICA, p-values).
 
 use linfa::prelude::*;
 use linfa::Dataset;
-use linfa::dataset::AsSingleTargets;
+use linfa::dataset::{AsSingleTargets, Labels};
 use ndarray::{Array1, Array2, Axis};
 use rand_xoshiro::rand_core::SeedableRng;
 use rand_xoshiro::Xoshiro256Plus;
@@ -39,6 +98,41 @@ pub fn bu(fp: &mut Fp, a: &[usize]) {
 }
 pub fn bf(fp: &mut Fp, x: f64) {
     fp.push(x.to_bits());
+}
+pub fn b3(fp: &mut Fp, a: &ndarray::Array3<f64>) {
+    fp.extend(a.shape().iter().map(|&d| d as u64));
+    fp.extend(a.iter().map(|x| x.to_bits()));
+}
+/// a `Vec<F>` result (length + bit patterns, in the order returned)
+pub fn bv(fp: &mut Fp, a: &[f64]) {
+    fp.push(a.len() as u64);
+    fp.extend(a.iter().map(|x| x.to_bits()));
+}
+/// a string result (length + bytes)
+pub fn bs(fp: &mut Fp, s: &str) {
+    fp.push(s.len() as u64);
+    fp.extend(s.bytes().map(|b| b as u64));
+}
+/// The `Debug` form (`{:#?}`: ndarray does not elide long arrays in the alternate form) of a model
+/// whose learned quantities have neither an accessor nor a serde form in this build. ONLY for types
+/// without hash collections inside (a derived Debug prints a map in its iteration order); floats are
+/// printed in their shortest round-trip form, so two different bit patterns print differently
+/// (except NaN payloads).
+pub fn bd<T: std::fmt::Debug>(fp: &mut Fp, t: &T) {
+    bs(fp, &format!("{:#?}", t));
+}
+/// `Result<array, E>` accessors (elastic-net z-scores): the Err text is compared like a value
+fn bres<T, E: std::fmt::Debug>(fp: &mut Fp, r: Result<T, E>, ok: impl FnOnce(&mut Fp, &T)) {
+    match r {
+        Ok(v) => {
+            fp.push(1);
+            ok(fp, &v)
+        }
+        Err(x) => {
+            fp.push(0);
+            bs(fp, &e(x))
+        }
+    }
 }
 
 
@@ -135,15 +229,41 @@ fn e<T: std::fmt::Debug>(x: T) -> String {
 }
 
 // ---------- clustering ----------
+/// every accessor of a fitted k-means model
+fn kmeans_acc<D: linfa_nn::distance::Distance<f64>>(fp: &mut Fp, model: &linfa_clustering::KMeans<f64, D>) {
+    b2(fp, model.centroids());
+    b1(fp, model.cluster_count());
+    bf(fp, model.inertia());
+}
 fn kmeans_common(model: &linfa_clustering::KMeans<f64, linfa_nn::distance::L2Dist>, x: &Array2<f64>) -> Fp {
     let mut fp = Fp::new();
-    b2(&mut fp, model.centroids());
-    b1(&mut fp, model.cluster_count());
-    bf(&mut fp, model.inertia());
+    kmeans_acc(&mut fp, model);
     let pred = model.predict(x);
     bu(&mut fp, pred.as_slice().unwrap());
     let tr = model.transform(x);
     b1(&mut fp, &tr);
+    // the single-observation form of predict
+    for i in 0..x.nrows().min(8) {
+        let c: usize = model.predict(&x.row(i));
+        fp.push(c as u64);
+    }
+    fp
+}
+/// every accessor of a fitted Gaussian mixture; the Debug form shows the Cholesky factors of the
+/// precisions (learned, no accessor)
+fn gmm_acc(fp: &mut Fp, m: &linfa_clustering::GaussianMixtureModel<f64>) {
+    b1(fp, m.weights());
+    b2(fp, m.means());
+    b2(fp, m.centroids());
+    b3(fp, m.covariances());
+    b3(fp, m.precisions());
+    bd(fp, m);
+}
+fn gmm_fp(m: &linfa_clustering::GaussianMixtureModel<f64>, x: &Array2<f64>) -> Fp {
+    let mut fp = Fp::new();
+    gmm_acc(&mut fp, m);
+    b2(&mut fp, &m.predict_proba(x));
+    bu(&mut fp, m.predict(x).as_slice().unwrap());
     fp
 }
 
@@ -203,14 +323,7 @@ fn gmm_kmeans_init() -> Result<Fp, String> {
     let (x, _) = blobs(400, 2, 3, 15);
     let ds = Dataset::from(x.clone());
     let m = GaussianMixtureModel::params_with_rng(3, rng(5)).n_runs(2).tolerance(1e-4).fit(&ds).map_err(e)?;
-    let mut fp = Fp::new();
-    b1(&mut fp, m.weights());
-    b2(&mut fp, m.means());
-    fp.extend(m.covariances().iter().map(|v| v.to_bits()));
-    fp.extend(m.precisions().iter().map(|v| v.to_bits()));
-    b2(&mut fp, &m.predict_proba(&x));
-    bu(&mut fp, m.predict(&x).as_slice().unwrap());
-    Ok(fp)
+    Ok(gmm_fp(&m, &x))
 }
 /// more than 4096 rows: size thresholds that switch to parallel / different code paths
 fn gmm_big_5000() -> Result<Fp, String> {
@@ -218,12 +331,7 @@ fn gmm_big_5000() -> Result<Fp, String> {
     let (x, _) = blobs(5000, 2, 3, 51);
     let ds = Dataset::from(x.clone());
     let m = GaussianMixtureModel::params_with_rng(3, rng(6)).n_runs(1).max_n_iterations(15).tolerance(1e-3).fit(&ds).map_err(e)?;
-    let mut fp = Fp::new();
-    b1(&mut fp, m.weights());
-    b2(&mut fp, m.means());
-    fp.extend(m.covariances().iter().map(|v| v.to_bits()));
-    bu(&mut fp, m.predict(&x).as_slice().unwrap());
-    Ok(fp)
+    Ok(gmm_fp(&m, &x))
 }
 fn kmeans_pp_5000() -> Result<Fp, String> {
     use linfa_clustering::{KMeans, KMeansInit};
@@ -237,12 +345,7 @@ fn gmm_random_init_default_seed() -> Result<Fp, String> {
     let (x, _) = blobs(300, 2, 2, 16);
     let ds = Dataset::from(x.clone());
     let m = GaussianMixtureModel::params(2).init_method(GmmInitMethod::Random).reg_covariance(1e-3).fit(&ds).map_err(e)?;
-    let mut fp = Fp::new();
-    b1(&mut fp, m.weights());
-    b2(&mut fp, m.means());
-    fp.extend(m.covariances().iter().map(|v| v.to_bits()));
-    bu(&mut fp, m.predict(&x).as_slice().unwrap());
-    Ok(fp)
+    Ok(gmm_fp(&m, &x))
 }
 fn dbscan_all_indices() -> Result<Fp, String> {
     use linfa_clustering::Dbscan;
@@ -253,6 +356,11 @@ fn dbscan_all_indices() -> Result<Fp, String> {
         let r = Dbscan::params_with(4, L2Dist, nn).tolerance(0.9).transform(&x).map_err(e)?;
         fp.extend(r.iter().map(|o| o.map(|v| v as u64 + 1).unwrap_or(0)));
     }
+    // the dataset form: the cluster ids arrive as the targets of the returned dataset
+    let r = Dbscan::params(4).tolerance(0.9).transform(Dataset::from(x.clone())).map_err(e)?;
+    fp.push(r.targets().len() as u64);
+    fp.extend(r.targets().iter().map(|o| o.map(|v| v as u64 + 1).unwrap_or(0)));
+    b2(&mut fp, r.records());
     Ok(fp)
 }
 fn optics_default() -> Result<Fp, String> {
@@ -260,11 +368,23 @@ fn optics_default() -> Result<Fp, String> {
     let (x, _) = blobs(200, 2, 3, 18);
     let r = Optics::params(4).tolerance(2.0).transform(x.view()).map_err(e)?;
     let mut fp = Fp::new();
-    for s in r.iter() {
+    let one = |fp: &mut Fp, s: &linfa_clustering::Sample<f64>| {
         fp.push(s.index() as u64);
         fp.push(s.core_distance().map(|v: f64| v.to_bits()).unwrap_or(1));
         fp.push(s.reachability_distance().map(|v: f64| v.to_bits()).unwrap_or(1));
+    };
+    // the three read paths of the analysis: iter(), as_slice(), Index
+    for s in r.iter() {
+        one(&mut fp, s);
     }
+    fp.push(r.as_slice().len() as u64);
+    for s in r.as_slice() {
+        one(&mut fp, s);
+    }
+    for i in 0..r.as_slice().len() {
+        one(&mut fp, &r[i]);
+    }
+    bd(&mut fp, &r);
     Ok(fp)
 }
 fn hierarchical_with(method: linfa_hierarchical::Method, nclusters: usize) -> Result<Fp, String> {
@@ -275,6 +395,7 @@ fn hierarchical_with(method: linfa_hierarchical::Method, nclusters: usize) -> Re
     let r = HierarchicalCluster::default().with_method(method).num_clusters(nclusters).transform(kernel).map_err(e)?;
     let mut fp = Fp::new();
     bu(&mut fp, r.targets());
+    fp.push(r.records().size() as u64);
     Ok(fp)
 }
 fn hierarchical_ward3() -> Result<Fp, String> {
@@ -303,6 +424,13 @@ fn isotonic() -> Result<Fp, String> {
     let m = IsotonicRegression::new().fit(&ds).map_err(e)?;
     let mut fp = Fp::new();
     b1(&mut fp, &m.predict(&x));
+    // the learned step function (regressor / response arrays) has no accessor: Debug form, and
+    // predictions between / outside the training abscissae
+    bd(&mut fp, &m);
+    let lo = x.iter().cloned().fold(f64::INFINITY, f64::min);
+    let hi = x.iter().cloned().fold(f64::NEG_INFINITY, f64::max);
+    let q = Array2::from_shape_fn((41, 1), |(i, _)| lo - 1.0 + (hi - lo + 2.0) * i as f64 / 40.0);
+    b1(&mut fp, &m.predict(&q));
     Ok(fp)
 }
 fn tweedie() -> Result<Fp, String> {
@@ -315,6 +443,7 @@ fn tweedie() -> Result<Fp, String> {
     b1(&mut fp, &m.coef);
     bf(&mut fp, m.intercept);
     b1(&mut fp, &m.predict(&x));
+    bd(&mut fp, &m); // + the link function kept by the model (private)
     Ok(fp)
 }
 fn elasticnet() -> Result<Fp, String> {
@@ -328,6 +457,11 @@ fn elasticnet() -> Result<Fp, String> {
     bf(&mut fp, m.duality_gap());
     fp.push(m.n_steps() as u64);
     b1(&mut fp, &m.predict(&x));
+    bres(&mut fp, m.z_score(), |fp, z| b1(fp, z));
+    bres(&mut fp, m.confidence_95th(), |fp, c| {
+        fp.push(c.len() as u64);
+        fp.extend(c.iter().flat_map(|(a, b)| [a.to_bits(), b.to_bits()]));
+    });
     Ok(fp)
 }
 fn multitask_elasticnet() -> Result<Fp, String> {
@@ -339,23 +473,56 @@ fn multitask_elasticnet() -> Result<Fp, String> {
     b2(&mut fp, m.hyperplane());
     b1(&mut fp, m.intercept());
     bf(&mut fp, m.duality_gap());
+    fp.push(m.n_steps() as u64);
     b2(&mut fp, &m.predict(&x));
+    // On the unchanged tree both calls PANIC whenever n_tasks != n_features (the per-feature variance
+    // [n_features] is broadcast against the [n_features, n_tasks] hyperplane along the wrong axis;
+    // reported, fix proposed in fixes_proposed/multitask_elasticnet_z_score_broadcast.diff). That is a
+    // deterministic failure, not a C20 matter: as in the hard-input entries the panic text is compared
+    // like a result, and once the accessor works its values are compared.
+    match lvmc_core::guarded(|| m.z_score()) {
+        Ok(r) => bres(&mut fp, r, |fp, z| b2(fp, z)),
+        Err(p) => bs(&mut fp, &p),
+    }
+    match lvmc_core::guarded(|| m.confidence_95th()) {
+        Ok(r) => bres(&mut fp, r, |fp, c| {
+            fp.extend(c.shape().iter().map(|&d| d as u64));
+            fp.extend(c.iter().flat_map(|(a, b)| [a.to_bits(), b.to_bits()]));
+        }),
+        Err(p) => bs(&mut fp, &p),
+    }
     Ok(fp)
 }
 fn pls_family() -> Result<Fp, String> {
     use linfa_pls::{PlsCanonical, PlsCca, PlsRegression};
     let (x, y) = regression(60, 4, 2, 26);
-    let ds = Dataset::new(x.clone(), y);
+    let ds = Dataset::new(x.clone(), y.clone());
     let mut fp = Fp::new();
-    let m = PlsRegression::<f64>::params(2).fit(&ds).map_err(e)?;
-    b2(&mut fp, m.coefficients());
-    b2(&mut fp, &m.predict(&x));
-    let m = PlsCanonical::<f64>::params(2).fit(&ds).map_err(e)?;
-    b2(&mut fp, m.coefficients());
-    b2(&mut fp, m.weights().0);
-    let m = PlsCca::<f64>::params(2).fit(&ds).map_err(e)?;
-    b2(&mut fp, m.coefficients());
-    b2(&mut fp, m.rotations().1);
+    // the three wrappers share their accessors (a macro in linfa-pls) but are distinct types
+    macro_rules! pls_all {
+        ($m:expr) => {{
+            let m = $m;
+            b2(&mut fp, m.coefficients());
+            b2(&mut fp, m.weights().0);
+            b2(&mut fp, m.weights().1);
+            b2(&mut fp, m.loadings().0);
+            b2(&mut fp, m.loadings().1);
+            b2(&mut fp, m.rotations().0);
+            b2(&mut fp, m.rotations().1);
+            b2(&mut fp, &m.predict(&x));
+            let t = m.transform(Dataset::new(x.clone(), y.clone()));
+            b2(&mut fp, t.records());
+            b2(&mut fp, t.targets());
+            let back = m.inverse_transform(t);
+            b2(&mut fp, back.records());
+            b2(&mut fp, back.targets());
+            // scores, means and standard deviations have no public accessor
+            bd(&mut fp, &m);
+        }};
+    }
+    pls_all!(PlsRegression::<f64>::params(2).fit(&ds).map_err(e)?);
+    pls_all!(PlsCanonical::<f64>::params(2).fit(&ds).map_err(e)?);
+    pls_all!(PlsCca::<f64>::params(2).fit(&ds).map_err(e)?);
     Ok(fp)
 }
 
@@ -370,6 +537,24 @@ fn logistic_binary() -> Result<Fp, String> {
     bf(&mut fp, m.intercept());
     b1(&mut fp, &m.predict_probabilities(&x));
     fp.extend(m.predict(&x).iter().map(|&b| b as u64));
+    // which class became the positive one, and the numeric labels given to both
+    let l = m.labels();
+    fp.extend([l.pos.class as u64, l.pos.label.to_bits(), l.neg.class as u64, l.neg.label.to_bits()]);
+    // the same with string classes and a moved threshold
+    let names = ["yes", "no"];
+    let ds = Dataset::new(x.clone(), y.mapv(|c| names[c].to_string()));
+    let m = LogisticRegression::default().alpha(0.5).max_iterations(200).fit(&ds).map_err(e)?;
+    b1(&mut fp, m.params());
+    bf(&mut fp, m.intercept());
+    let l = m.labels();
+    bs(&mut fp, &l.pos.class);
+    bf(&mut fp, l.pos.label);
+    bs(&mut fp, &l.neg.class);
+    bf(&mut fp, l.neg.label);
+    let m = m.set_threshold(0.3);
+    for p in m.predict(&x).iter() {
+        bs(&mut fp, p);
+    }
     Ok(fp)
 }
 fn logistic_multi_strings() -> Result<Fp, String> {
@@ -382,15 +567,17 @@ fn logistic_multi_strings() -> Result<Fp, String> {
     b2(&mut fp, m.params());
     b1(&mut fp, m.intercept());
     b2(&mut fp, &m.predict_probabilities(&x));
+    // the class list maps column indices to labels: its order is part of the result
+    fp.push(m.classes().len() as u64);
     for c in m.classes() {
-        fp.extend(c.bytes().map(|b| b as u64));
+        bs(&mut fp, c);
     }
     for p in m.predict(&x).iter() {
         fp.push(p.as_bytes()[0] as u64);
     }
     Ok(fp)
 }
-fn svm_fp<T>(m: &linfa_svm::Svm<f64, T>, x: &Array2<f64>) -> Fp {
+fn svm_fp<T: std::fmt::Debug>(m: &linfa_svm::Svm<f64, T>, x: &Array2<f64>) -> Fp {
     let mut fp = Fp::new();
     fp.extend(m.alpha.iter().map(|v| v.to_bits()));
     bf(&mut fp, m.rho);
@@ -398,6 +585,10 @@ fn svm_fp<T>(m: &linfa_svm::Svm<f64, T>, x: &Array2<f64>) -> Fp {
     for r in x.rows() {
         bf(&mut fp, m.weighted_sum(&r));
     }
+    // Display: exit reason, iterations, objective value; Debug: additionally r, the separating
+    // hyperplane / support vectors and the Platt coefficients (learned, no accessors)
+    bs(&mut fp, &format!("{}", m));
+    bd(&mut fp, m);
     fp
 }
 fn svm_c_bool() -> Result<Fp, String> {
@@ -407,6 +598,11 @@ fn svm_c_bool() -> Result<Fp, String> {
     let m = Svm::<f64, bool>::params().gaussian_kernel(2.0).pos_neg_weights(1.0, 2.0).fit(&ds).map_err(e)?;
     let mut fp = svm_fp(&m, &x);
     fp.extend(m.predict(&x).iter().map(|&b| b as u64));
+    // the single-observation form of predict
+    for r in x.rows().into_iter().take(10) {
+        let b: bool = m.predict(r);
+        fp.push(b as u64);
+    }
     Ok(fp)
 }
 fn svm_nu_bool_shrinking() -> Result<Fp, String> {
@@ -425,6 +621,11 @@ fn svm_pr() -> Result<Fp, String> {
     let m = Svm::<f64, Pr>::params().gaussian_kernel(2.0).fit(&ds).map_err(e)?;
     let mut fp = svm_fp(&m, &x);
     fp.extend(m.predict(&x).iter().map(|p| (**p as f64).to_bits()));
+    // the single-observation form of predict
+    for r in x.rows().into_iter().take(10) {
+        let p: Pr = m.predict(r);
+        fp.push((*p as f64).to_bits());
+    }
     Ok(fp)
 }
 fn svm_regression() -> Result<Fp, String> {
@@ -436,6 +637,7 @@ fn svm_regression() -> Result<Fp, String> {
     b1(&mut fp, &m.predict(&x));
     let m = Svm::<f64, f64>::params().nu_svr(0.5, Some(1.0)).gaussian_kernel(5.0).fit(&ds).map_err(e)?;
     fp.extend(svm_fp(&m, &x));
+    b1(&mut fp, &m.predict(&x));
     Ok(fp)
 }
 fn svm_one_class() -> Result<Fp, String> {
@@ -447,22 +649,45 @@ fn svm_one_class() -> Result<Fp, String> {
     fp.extend(m.predict(&x).iter().map(|&b| b as u64));
     Ok(fp)
 }
-fn tree_fp<L: linfa::Label + std::fmt::Debug>(m: &linfa_trees::DecisionTree<f64, L>, x: &Array2<f64>) -> Fp {
+fn tree_fp<L: linfa::Label + std::fmt::Debug + serde::Serialize>(m: &linfa_trees::DecisionTree<f64, L>, x: &Array2<f64>) -> Fp {
     let mut fp = Fp::new();
-    for node in m.iter_nodes() {
+    let node_fp = |fp: &mut Fp, node: &linfa_trees::TreeNode<f64, L>| {
         fp.push(node.depth() as u64);
         fp.push(node.is_leaf() as u64);
         let (f, v, imp) = node.split();
         fp.push(f as u64);
         fp.push(v.to_bits());
         fp.push(imp.to_bits());
-        for b in format!("{:?}", node.prediction()).bytes() {
-            fp.push(b as u64);
+        bs(fp, &format!("{:?}", node.prediction()));
+        bs(fp, &format!("{:?}", node.feature_name()));
+        // children(): first left then right (documented)
+        let ch = node.children();
+        fp.push(ch.len() as u64);
+        for c in ch {
+            match c {
+                Some(c) => fp.extend([1, c.depth() as u64, c.is_leaf() as u64, c.split().0 as u64, c.split().1.to_bits()]),
+                None => fp.push(0),
+            }
         }
+    };
+    // iter_nodes(): documented level order
+    for node in m.iter_nodes() {
+        node_fp(&mut fp, node);
     }
-    fp.extend(m.feature_importance().iter().map(|v| v.to_bits()));
+    node_fp(&mut fp, m.root_node());
+    fp.push(m.max_depth() as u64);
+    fp.push(m.num_leaves() as u64);
+    bv(&mut fp, &m.feature_importance());
+    bv(&mut fp, &m.mean_impurity_decrease());
+    bv(&mut fp, &m.relative_impurity_decrease());
     // the features used by the tree, in the documented breadth-first order of their first use
     bu(&mut fp, &m.features());
+    // the three renderings of the Tikz export (the legend walks the nodes with a hash set of seen features)
+    bs(&mut fp, &m.export_to_tikz().to_string());
+    bs(&mut fp, &m.export_to_tikz().with_legend().to_string());
+    bs(&mut fp, &m.export_to_tikz().complete(false).to_string());
+    // every stored field, including the modal class kept at internal nodes (prediction() hides it there)
+    bj(&mut fp, m);
     for p in m.predict(x).iter() {
         for b in format!("{:?}", p).bytes() {
             fp.push(b as u64);
@@ -473,7 +698,8 @@ fn tree_fp<L: linfa::Label + std::fmt::Debug>(m: &linfa_trees::DecisionTree<f64,
 fn tree_blobs() -> Result<Fp, String> {
     use linfa_trees::DecisionTree;
     let (x, y) = blobs(150, 3, 3, 38);
-    let ds = Dataset::new(x.clone(), y);
+    // named features: TreeNode::feature_name and the Tikz legend show them
+    let ds = Dataset::new(x.clone(), y).with_feature_names(vec!["height", "width", "depth"]);
     let m = DecisionTree::params().max_depth(Some(4)).fit(&ds).map_err(e)?;
     Ok(tree_fp(&m, &x))
 }
@@ -517,12 +743,12 @@ fn tree_weighted_nondyadic() -> Result<Fp, String> {
         x[(i, 2)] = g.next();
     }
     let w = Array1::from_shape_fn(n, |i| 0.1f32 * (1 + (i * 7) % 13) as f32);
-    let ds = Dataset::new(x.clone(), y).with_weights(w);
+    // (this tree splits on all three features: features(), feature_name() and the Tikz legend list several)
+    let ds = Dataset::new(x.clone(), y).with_weights(w).with_feature_names(vec!["gamma", "alpha", "beta"]);
     let mut fp = Fp::new();
     for q in [SplitQuality::Gini, SplitQuality::Entropy] {
         let m = DecisionTree::params().split_quality(q).fit(&ds).map_err(e)?;
         fp.extend(tree_fp(&m, &x));
-        fp.extend(m.mean_impurity_decrease().iter().map(|v| v.to_bits()));
     }
     Ok(fp)
 }
@@ -537,6 +763,7 @@ fn gaussian_nb_ties() -> Result<Fp, String> {
     let mut fp = Fp::new();
     bu(&mut fp, m.predict(&q).as_slice().unwrap());
     bu(&mut fp, m.predict(&x).as_slice().unwrap());
+    bj(&mut fp, &m);
     Ok(fp)
 }
 fn gaussian_nb_blobs() -> Result<Fp, String> {
@@ -589,9 +816,7 @@ fn kmeans_pp_20000() -> Result<Fp, String> {
     let ds = Dataset::from(x.clone());
     let m = KMeans::params_with_rng(4, rng(10)).init_method(KMeansInit::KMeansPlusPlus).n_runs(1).max_n_iterations(6).fit(&ds).map_err(e)?;
     let mut fp = Fp::new();
-    b2(&mut fp, m.centroids());
-    bf(&mut fp, m.inertia());
-    b1(&mut fp, m.cluster_count());
+    kmeans_acc(&mut fp, &m);
     Ok(fp)
 }
 fn multinomial_nb_ties() -> Result<Fp, String> {
@@ -616,6 +841,9 @@ fn ftrl_default_seed() -> Result<Fp, String> {
     b1(&mut fp, m.z());
     b1(&mut fp, m.n());
     b1(&mut fp, &m.get_weights());
+    for v in [m.alpha(), m.beta(), m.l1_ratio(), m.l2_ratio()] {
+        bf(&mut fp, v);
+    }
     fp.extend(m.predict(&x).iter().map(|p| (**p as f64).to_bits()));
     Ok(fp)
 }
@@ -632,7 +860,13 @@ fn pca() -> Result<Fp, String> {
         b1(&mut fp, m.singular_values());
         b1(&mut fp, m.mean());
         b1(&mut fp, &m.explained_variance());
-        b2(&mut fp, &m.predict(&x));
+        b1(&mut fp, &m.explained_variance_ratio());
+        let proj = m.predict(&x);
+        b2(&mut fp, &proj);
+        b2(&mut fp, &m.inverse_transform(proj));
+        // the dataset form (Transformer)
+        let t = m.transform(Dataset::from(x.clone()));
+        b2(&mut fp, t.records());
     }
     Ok(fp)
 }
@@ -641,14 +875,26 @@ fn random_projections() -> Result<Fp, String> {
     let (x, _) = blobs(50, 30, 3, 42);
     let ds = Dataset::from(x.clone());
     let mut fp = Fp::new();
-    let m = GaussianRandomProjection::<f64>::params().target_dim(5).fit(&ds).map_err(e)?;
-    b2(&mut fp, &m.transform(&x));
-    let m = GaussianRandomProjection::<f64>::params_with_rng(rng(9)).target_dim(5).fit(&ds).map_err(e)?;
-    b2(&mut fp, &m.transform(&x));
-    let m = SparseRandomProjection::<f64>::params().target_dim(5).fit(&ds).map_err(e)?;
-    b2(&mut fp, &m.transform(&x));
-    let m = SparseRandomProjection::<f64>::params_with_rng(rng(9)).target_dim(5).fit(&ds).map_err(e)?;
-    b2(&mut fp, &m.transform(&x));
+    // the projection matrix has no accessor: transforming the identity returns it entry by entry;
+    // all three calling forms of transform (borrowed array, owned array, dataset)
+    let eye = Array2::<f64>::eye(30);
+    macro_rules! all_forms {
+        ($m:expr) => {{
+            let m = $m;
+            b2(&mut fp, &m.transform(&x));
+            b2(&mut fp, &m.transform(&eye));
+            b2(&mut fp, &m.transform(x.clone()));
+            b2(&mut fp, m.transform(Dataset::from(x.clone())).records());
+        }};
+    }
+    all_forms!(GaussianRandomProjection::<f64>::params().target_dim(5).fit(&ds).map_err(e)?);
+    all_forms!(GaussianRandomProjection::<f64>::params_with_rng(rng(9)).target_dim(5).fit(&ds).map_err(e)?);
+    all_forms!(SparseRandomProjection::<f64>::params().target_dim(5).fit(&ds).map_err(e)?);
+    all_forms!(SparseRandomProjection::<f64>::params_with_rng(rng(9)).target_dim(5).fit(&ds).map_err(e)?);
+    // target dimension derived from eps (Johnson-Lindenstrauss bound) instead of given
+    let (wide, _) = blobs(6, 400, 2, 43);
+    let m = GaussianRandomProjection::<f64>::params().eps(0.9).fit(&Dataset::from(wide.clone())).map_err(e)?;
+    b2(&mut fp, &m.transform(&wide));
     Ok(fp)
 }
 fn diffusion_map() -> Result<Fp, String> {
@@ -660,9 +906,12 @@ fn diffusion_map() -> Result<Fp, String> {
     let m = DiffusionMap::<f64>::params(2).steps(1).transform(&kernel).map_err(e)?;
     b2(&mut fp, m.embedding());
     b1(&mut fp, m.eigvals());
+    fp.push(m.estimate_clusters() as u64);
     let kernel = Kernel::params().method(KernelMethod::Gaussian(2.0)).transform(x.view());
     let m = DiffusionMap::<f64>::params(2).steps(2).transform(&kernel).map_err(e)?;
     b2(&mut fp, m.embedding());
+    b1(&mut fp, m.eigvals());
+    fp.push(m.estimate_clusters() as u64);
     Ok(fp)
 }
 fn fast_ica_seeded() -> Result<Fp, String> {
@@ -672,6 +921,8 @@ fn fast_ica_seeded() -> Result<Fp, String> {
     let m = FastIca::params().ncomponents(2).gfunc(GFunc::Logcosh(1.0)).random_state(10).fit(&ds).map_err(e)?;
     let mut fp = Fp::new();
     b2(&mut fp, &m.predict(&x));
+    // mean and unmixing matrix have no accessors
+    bd(&mut fp, &m);
     Ok(fp)
 }
 
@@ -682,14 +933,22 @@ fn scalers() -> Result<Fp, String> {
     let (x, _) = blobs(50, 3, 2, 45);
     let ds = Dataset::from(x.clone());
     let mut fp = Fp::new();
-    for p in [LinearScaler::standard(), LinearScaler::standard_no_mean(), LinearScaler::min_max(), LinearScaler::min_max_range(-1.0, 2.0), LinearScaler::max_abs()] {
+    for p in [LinearScaler::standard(), LinearScaler::standard_no_mean(), LinearScaler::standard_no_std(), LinearScaler::min_max(), LinearScaler::min_max_range(-1.0, 2.0), LinearScaler::max_abs()] {
         let m = p.fit(&ds).map_err(e)?;
         b1(&mut fp, m.offsets());
         b1(&mut fp, m.scales());
+        bd(&mut fp, m.method());
         b2(&mut fp, &m.transform(x.clone()));
+        // the dataset form keeps the feature names, in order
+        let t = m.transform(Dataset::from(x.clone()).with_feature_names(vec!["c", "a", "b"]));
+        b2(&mut fp, t.records());
+        for n in t.feature_names() {
+            bs(&mut fp, n);
+        }
     }
     for s in [NormScaler::l1(), NormScaler::l2(), NormScaler::max()] {
         b2(&mut fp, &s.transform(x.clone()));
+        b2(&mut fp, s.transform(Dataset::from(x.clone())).records());
     }
     Ok(fp)
 }
@@ -703,11 +962,14 @@ fn whiteners() -> Result<Fp, String> {
         b2(&mut fp, &m.transformation_matrix().to_owned());
         b1(&mut fp, &m.mean().to_owned());
         b2(&mut fp, &m.transform(x.clone()));
+        b2(&mut fp, m.transform(Dataset::from(x.clone())).records());
     }
     Ok(fp)
 }
-/// vocabularies are compared as word -> column maps: the fingerprint is built from the columns
-/// re-ordered by word, so it is invariant under the (unspecified) column order.
+/// vocabularies are compared as word -> column maps (the property statement says so):
+/// `vocabulary()` lists the words in the (hash-ordered, unspecified) column order, so the fingerprint
+/// is built from the columns re-ordered by word and is invariant under the column order, but not
+/// under a change of the word SET, of `nentries()`, or of any count / weight in a word's column.
 fn vectorizers() -> Result<Fp, String> {
     use linfa_preprocessing::tf_idf_vectorization::TfIdfVectorizer;
     use linfa_preprocessing::CountVectorizer;
@@ -715,30 +977,48 @@ fn vectorizers() -> Result<Fp, String> {
         "one two three four", "two three four five five", "seven one one two", "nine eight seven six",
         "ten ten two", "one six", "three three three nine"
     ];
+    // documents that were not seen during fitting (unknown words, repeated known words)
+    let unseen = ndarray::array!["two two eleven one", "twelve", "nine nine six one two three", ""];
     let mut fp = Fp::new();
-    let cv = CountVectorizer::params().n_gram_range(1, 2).document_frequency(0.1, 0.9).fit(&docs).map_err(e)?;
-    let dense = cv.transform(&docs).map_err(e)?.to_dense();
-    let mut order: Vec<usize> = (0..cv.vocabulary().len()).collect();
-    order.sort_by(|&a, &b| cv.vocabulary()[a].cmp(&cv.vocabulary()[b]));
-    for &j in &order {
-        fp.extend(cv.vocabulary()[j].bytes().map(|b| b as u64));
-        fp.extend(dense.column(j).iter().map(|&c| c as u64));
+    // word -> column of a dense matrix, columns visited in word order
+    fn by_word<T: Copy>(fp: &mut Fp, vocabulary: &[String], dense: &Array2<T>, bits: impl Fn(T) -> u64) {
+        let mut order: Vec<usize> = (0..vocabulary.len()).collect();
+        order.sort_by(|&a, &b| vocabulary[a].cmp(&vocabulary[b]));
+        fp.push(vocabulary.len() as u64);
+        fp.push(dense.ncols() as u64);
+        for &j in &order {
+            bs(fp, &vocabulary[j]);
+            fp.extend(dense.column(j).iter().map(|&c| bits(c)));
+        }
     }
+    let count_fp = |fp: &mut Fp, cv: &CountVectorizer| -> Result<(), String> {
+        fp.push(cv.nentries() as u64);
+        by_word(fp, cv.vocabulary(), &cv.transform(&docs).map_err(e)?.to_dense(), |c: usize| c as u64);
+        by_word(fp, cv.vocabulary(), &cv.transform(&unseen).map_err(e)?.to_dense(), |c: usize| c as u64);
+        Ok(())
+    };
+    let cv = CountVectorizer::params().n_gram_range(1, 2).document_frequency(0.1, 0.9).fit(&docs).map_err(e)?;
+    count_fp(&mut fp, &cv)?;
     // capped vocabulary: the SET of kept words must be reproducible as well
     let cv = CountVectorizer::params().max_features(Some(4)).fit(&docs).map_err(e)?;
-    let mut words: Vec<String> = cv.vocabulary().clone();
-    words.sort();
-    for w in &words {
-        fp.extend(w.bytes().map(|b| b as u64));
+    count_fp(&mut fp, &cv)?;
+    // stop words
+    let cv = CountVectorizer::params().stopwords(&["two", "nine"]).fit(&docs).map_err(e)?;
+    count_fp(&mut fp, &cv)?;
+    // a given vocabulary
+    let cv = CountVectorizer::params().fit_vocabulary(&["two", "one", "nine", "zero", "two"]).map_err(e)?;
+    count_fp(&mut fp, &cv)?;
+    // (the idf method has no public setter: only the default, Smooth, can be fitted)
+    for tf in [TfIdfVectorizer::default(), TfIdfVectorizer::default().n_gram_range(1, 2).max_features(Some(6))] {
+        let tf = tf.fit(&docs).map_err(e)?;
+        fp.push(tf.nentries() as u64);
+        bd(&mut fp, tf.method());
+        by_word(&mut fp, tf.vocabulary(), &tf.transform(&docs).map_err(e)?.to_dense(), |c: f64| c.to_bits());
+        by_word(&mut fp, tf.vocabulary(), &tf.transform(&unseen).map_err(e)?.to_dense(), |c: f64| c.to_bits());
     }
-    let tf = TfIdfVectorizer::default().fit(&docs).map_err(e)?;
-    let dense = tf.transform(&docs).map_err(e)?.to_dense();
-    let mut order: Vec<usize> = (0..tf.vocabulary().len()).collect();
-    order.sort_by(|&a, &b| tf.vocabulary()[a].cmp(&tf.vocabulary()[b]));
-    for &j in &order {
-        fp.extend(tf.vocabulary()[j].bytes().map(|b| b as u64));
-        fp.extend(dense.column(j).iter().map(|&c: &f64| c.to_bits()));
-    }
+    let tf = TfIdfVectorizer::default().fit_vocabulary(&["two", "one", "nine", "zero"]).map_err(e)?;
+    fp.push(tf.nentries() as u64);
+    by_word(&mut fp, tf.vocabulary(), &tf.transform(&docs).map_err(e)?.to_dense(), |c: f64| c.to_bits());
     Ok(fp)
 }
 fn platt() -> Result<Fp, String> {
@@ -751,6 +1031,8 @@ fn platt() -> Result<Fp, String> {
     let p = Platt::params().fit_with(m, &ds).map_err(e)?;
     let mut fp = Fp::new();
     fp.extend(p.predict(&x).iter().map(|p| (**p as f64).to_bits()));
+    // the sigmoid coefficients A, B have no accessor (Debug shows them and the wrapped model)
+    bd(&mut fp, &p);
     Ok(fp)
 }
 /// dataset-level helpers whose order could leak hash-map iteration order
@@ -770,13 +1052,82 @@ fn one_vs_all_and_confusion() -> Result<Fp, String> {
         fp.push(l as u64);
         fp.extend(t);
     }
-    let pred = y.mapv(|c| (c + 1) % 3);
-    let cm = pred.confusion_matrix(&y).map_err(e)?;
-    bf(&mut fp, cm.accuracy() as f64);
-    bf(&mut fp, cm.mcc() as f64);
-    for v in cm.split_one_vs_all() {
-        bf(&mut fp, v.precision() as f64);
+    // Labels::labels() and combined_labels() hand back a Vec collected from a HashSet, label_set() /
+    // label_count() / label_frequencies() hash collections: dataset-level helpers (not estimator
+    // results, outside the statement) whose order nothing documents and which feed one_vs_all, so -
+    // like one_vs_all above - they are compared as SETS / MAPS (sorted here).
+    let mut labels = ds.labels();
+    labels.sort();
+    bu(&mut fp, &labels);
+    let mut comb = ds.combined_labels(&ndarray::array![7usize, 1, 9]);
+    comb.sort();
+    bu(&mut fp, &comb);
+    for set in ds.label_set() {
+        let mut v: Vec<usize> = set.into_iter().collect();
+        v.sort();
+        bu(&mut fp, &v);
     }
+    for map in ds.label_count() {
+        let mut v: Vec<(usize, usize)> = map.into_iter().collect();
+        v.sort();
+        fp.extend(v.into_iter().flat_map(|(l, c)| [l as u64, c as u64]));
+    }
+    let mut freq: Vec<(usize, u32)> = ds.label_frequencies().into_iter().map(|(l, f)| (l, f.to_bits())).collect();
+    freq.sort();
+    fp.extend(freq.into_iter().flat_map(|(l, f)| [l as u64, f as u64]));
+    // the label counts carried by each one-vs-all view (CountedTargets)
+    let mut counts: Vec<(usize, Vec<(bool, usize)>)> = ds
+        .one_vs_all()
+        .map_err(e)?
+        .into_iter()
+        .map(|(l, d)| {
+            let mut c: Vec<(bool, usize)> = d.label_count().into_iter().flatten().collect();
+            c.sort();
+            (l, c)
+        })
+        .collect();
+    counts.sort();
+    for (l, c) in counts {
+        fp.push(l as u64);
+        fp.extend(c.into_iter().flat_map(|(b, n)| [b as u64, n as u64]));
+    }
+    // silhouette score: walks a label -> distance-sum hash map per sample
+    {
+        use linfa::metrics::SilhouetteScore;
+        bf(&mut fp, ds.silhouette_score().map_err(e)?);
+    }
+    // confusion matrices: the class order (rows / columns) is documented as sorted, so Debug - which
+    // prints the members and the matrix - is compared as is
+    let cm_fp = |fp: &mut Fp, cm: &linfa::metrics::ConfusionMatrix<bool>| {
+        for v in [cm.precision(), cm.recall(), cm.accuracy(), cm.f1_score(), cm.f_score(0.5), cm.mcc()] {
+            fp.push(v.to_bits() as u64);
+        }
+        bs(fp, &format!("{:?}", cm));
+    };
+    let pred = y.mapv(|c| (c + 1) % 3);
+    let pred = Array1::from_shape_fn(pred.len(), |i| if i % 4 == 0 { y[i] } else { pred[i] });
+    let cm = pred.confusion_matrix(&y).map_err(e)?;
+    for v in [cm.precision(), cm.recall(), cm.accuracy(), cm.f1_score(), cm.f_score(0.5), cm.mcc()] {
+        fp.push(v.to_bits() as u64);
+    }
+    bs(&mut fp, &format!("{:?}", cm));
+    let ova = cm.split_one_vs_all();
+    fp.push(ova.len() as u64);
+    for v in &ova {
+        cm_fp(&mut fp, v);
+    }
+    let ovo = cm.split_one_vs_one();
+    fp.push(ovo.len() as u64);
+    for v in &ovo {
+        cm_fp(&mut fp, v);
+    }
+    // string labels and a binary matrix (two classes are put in reverse order, documented)
+    let names = ["pear", "apple", "fig"];
+    let cm = pred.mapv(|c| names[c].to_string()).confusion_matrix(&y.mapv(|c| names[c].to_string())).map_err(e)?;
+    bs(&mut fp, &format!("{:?}", cm));
+    fp.push(cm.mcc().to_bits() as u64);
+    let cm = pred.mapv(|c| c == 0).confusion_matrix(&y.mapv(|c| c == 0)).map_err(e)?;
+    cm_fp(&mut fp, &cm);
     Ok(fp)
 }
 
@@ -842,7 +1193,12 @@ fn pca_hard() -> Result<Fp, String> {
                 Ok(m) => {
                     b2(&mut fp, m.components());
                     b1(&mut fp, m.singular_values());
-                    b2(&mut fp, &m.predict(&x));
+                    b1(&mut fp, m.mean());
+                    b1(&mut fp, &m.explained_variance());
+                    b1(&mut fp, &m.explained_variance_ratio());
+                    let proj = m.predict(&x);
+                    b2(&mut fp, &proj);
+                    b2(&mut fp, &m.inverse_transform(proj));
                 }
                 Err(x) => fp.extend(e(x).bytes().map(|b| b as u64)),
             }
@@ -856,14 +1212,14 @@ fn iterative_fits_stopped_early() -> Result<Fp, String> {
     use linfa_ica::fast_ica::{FastIca, GFunc};
     use linfa_logistic::{LogisticRegression, MultiLogisticRegression};
     let mut fp = Fp::new();
-    let mut err = |fp: &mut Fp, s: String| fp.extend(s.bytes().map(|b| b as u64));
+    let err = |fp: &mut Fp, s: String| fp.extend(s.bytes().map(|b| b as u64));
     // k-means: more clusters than distinct points (empty clusters), and an iteration budget of 1
     let dup = Array2::from_shape_fn((40, 2), |(i, j)| ((i % 3) * (j + 1)) as f64);
     let ds = Dataset::from(dup.clone());
     for (k, it) in [(5usize, 50u64), (3, 1), (2, 1)] {
         match KMeans::params_with_rng(k, rng(3)).max_n_iterations(it).n_runs(2).tolerance(1e-12).fit(&ds) {
             Ok(m) => {
-                b2(&mut fp, m.centroids());
+                kmeans_acc(&mut fp, &m);
                 bu(&mut fp, m.predict(&dup).as_slice().unwrap());
             }
             Err(x) => err(&mut fp, e(x)),
@@ -873,8 +1229,8 @@ fn iterative_fits_stopped_early() -> Result<Fp, String> {
     for (k, reg, it) in [(3usize, 1e-12, 20u64), (2, 1e-6, 1), (4, 0.0, 5)] {
         match GaussianMixtureModel::params_with_rng(k, rng(5)).reg_covariance(reg).max_n_iterations(it).n_runs(2).fit(&ds) {
             Ok(m) => {
-                b2(&mut fp, m.means());
-                b1(&mut fp, m.weights());
+                gmm_acc(&mut fp, &m);
+                b2(&mut fp, &m.predict_proba(&dup));
                 bu(&mut fp, m.predict(&dup).as_slice().unwrap());
             }
             Err(x) => err(&mut fp, e(x)),
@@ -908,17 +1264,18 @@ fn iterative_fits_stopped_early() -> Result<Fp, String> {
             bf(&mut fp, m.intercept());
             bf(&mut fp, m.duality_gap());
             fp.push(m.n_steps() as u64);
-            match m.z_score() {
-                Ok(z) => b1(&mut fp, &z),
-                Err(x) => err(&mut fp, e(x)),
-            }
+            bres(&mut fp, m.z_score(), |fp, z| b1(fp, z));
+            bres(&mut fp, m.confidence_95th(), |fp, c| fp.extend(c.iter().flat_map(|(a, b)| [a.to_bits(), b.to_bits()])));
         }
         Err(x) => err(&mut fp, e(x)),
     }
     // FastICA stopped after two iterations
     let (x, _) = blobs(100, 3, 2, 78);
     match FastIca::params().ncomponents(3).gfunc(GFunc::Cube).max_iter(2).tol(1e-14).random_state(4).fit(&Dataset::from(x.clone())) {
-        Ok(m) => b2(&mut fp, &m.predict(&x)),
+        Ok(m) => {
+            b2(&mut fp, &m.predict(&x));
+            bd(&mut fp, &m);
+        }
         Err(x) => err(&mut fp, e(x)),
     }
     Ok(fp)
@@ -937,6 +1294,8 @@ fn pls_svd() -> Result<Fp, String> {
         let t = m.transform(Dataset::new(x.clone(), y.clone()));
         b2(&mut fp, t.records());
         b2(&mut fp, t.targets());
+        // centring / scaling vectors have no accessors
+        bd(&mut fp, &m);
     }
     Ok(fp)
 }
@@ -950,7 +1309,9 @@ fn kmeans_l1_big_f32() -> Result<Fp, String> {
     let mut fp = Fp::new();
     b2f32(&mut fp, m.centroids());
     fp.push(m.inertia().to_bits() as u64);
+    fp.extend(m.cluster_count().iter().map(|v| v.to_bits() as u64));
     bu(&mut fp, m.predict(&x32).as_slice().unwrap());
+    fp.extend(m.transform(&x32).iter().map(|v| v.to_bits() as u64));
     Ok(fp)
 }
 fn kernels_sparse_all_indices() -> Result<Fp, String> {
@@ -964,6 +1325,11 @@ fn kernels_sparse_all_indices() -> Result<Fp, String> {
         b1(&mut fp, &k.sum());
         b1(&mut fp, &k.diagonal());
         b2(&mut fp, &k.dot(&x.view()));
+        fp.push(k.size() as u64);
+        bv(&mut fp, &k.to_upper_triangle());
+        for i in [0, 24, 48] {
+            bv(&mut fp, &k.column(i));
+        }
     }
     Ok(fp)
 }
@@ -977,8 +1343,15 @@ fn svm_poly_f32_and_logistic_f32() -> Result<Fp, String> {
     let m = Svm::<f32, bool>::params().pos_neg_weights(1.0, 2.0).polynomial_kernel(1.0, 2.0).fit(&ds).map_err(e)?;
     fp.extend(m.predict(&x32).iter().map(|&b| b as u64));
     fp.push(m.nsupport() as u64);
+    fp.extend(m.alpha.iter().map(|v| v.to_bits() as u64));
+    fp.push(m.rho.to_bits() as u64);
+    bs(&mut fp, &format!("{}", m));
+    bd(&mut fp, &m);
     let m = LogisticRegression::default().alpha(1.0).max_iterations(50).fit(&ds).map_err(e)?;
     fp.extend(m.params().iter().map(|v| v.to_bits() as u64));
+    fp.push(m.intercept().to_bits() as u64);
+    let l = m.labels();
+    fp.extend([l.pos.class as u64, l.pos.label.to_bits() as u64, l.neg.class as u64, l.neg.label.to_bits() as u64]);
     fp.extend(m.predict_probabilities(&x32).iter().map(|v| v.to_bits() as u64));
     Ok(fp)
 }
@@ -1001,14 +1374,11 @@ fn seeds_at_boundary_values() -> Result<Fp, String> {
     }
     for seed in [0u64, 1, u64::MAX] {
         let m = KMeans::params_with_rng(3, rng(seed)).init_method(KMeansInit::Random).n_runs(2).max_n_iterations(10).fit(&ds).map_err(e)?;
-        b2(&mut fp, m.centroids());
+        kmeans_acc(&mut fp, &m);
         let m = KMeans::params_with_rng(3, rng(seed)).init_method(KMeansInit::KMeansPlusPlus).n_runs(1).max_n_iterations(10).fit(&ds).map_err(e)?;
-        b2(&mut fp, m.centroids());
+        kmeans_acc(&mut fp, &m);
         match GaussianMixtureModel::params_with_rng(2, rng(seed)).init_method(GmmInitMethod::Random).reg_covariance(1e-3).max_n_iterations(20).fit(&ds) {
-            Ok(m) => {
-                b2(&mut fp, m.means());
-                b1(&mut fp, m.weights());
-            }
+            Ok(m) => gmm_acc(&mut fp, &m),
             Err(x) => fp.extend(e(x).bytes().map(|b| b as u64)),
         }
         let m = GaussianRandomProjection::<f64>::params_with_rng(rng(seed)).target_dim(2).fit(&ds).map_err(e)?;
@@ -1018,6 +1388,8 @@ fn seeds_at_boundary_values() -> Result<Fp, String> {
         let dsb = Dataset::new(x.clone(), y.mapv(|c| c == 1));
         let m = linfa_ftrl::Ftrl::params_with_rng(rng(seed)).alpha(0.1).fit_with(None, &dsb).map_err(e)?;
         b1(&mut fp, &m.get_weights());
+        b1(&mut fp, m.z());
+        b1(&mut fp, m.n());
     }
     Ok(fp)
 }
